@@ -181,6 +181,23 @@ def translate(repo):
             items.append(typed(fam + "_skel", "skel", "{| sk_top := %s;\n  sk_file := %s;\n  sk_dir := %s |}" % (top, fil, dr)))
         except Unrecognised as e:
             items.append(Item("!" + fam + "_skel", "failed", text=str(e)))
-    # no shape snapshots: the templates above match every statement of the six functions (only the text of the
+    # upload_package: the last two statements decide what is uploaded and how (the directory of the module's source
+    # file, no filter, ignore_invalid left at its default, the caller's chunk_size); the remotepath=None branch
+    # (site-packages of the peer) is only snapshotted
+    try:
+        fn = find_func(tree, "upload_package")
+        _params(fn, [("conn", None), ("module", None), ("remotepath", "None"), ("chunk_size", "STREAM_CHUNK")])
+        body = strip_doc(fn.body)
+        _need(len(body) == 3 and isinstance(body[0], ast.If) and ast.unparse(body[0].test) == "remotepath is None"
+              and not body[0].orelse, "upload_package: body")
+        _need(ast.unparse(body[1]) == "localpath = os.path.dirname(os.path.abspath(inspect.getsourcefile(module)))",
+              "upload_package: localpath")
+        _need(ast.unparse(body[2]) == "upload(conn, localpath, remotepath, chunk_size=chunk_size)", "upload_package: upload call")
+        _need(ast.unparse(find_assign(tree, "upload_module")) == "upload_package", "upload_module alias")
+        items.append(typed("upload_package_is_plain_upload", "bool", "true"))
+        items.append(shape("upload_package", func_shape(fn)))
+    except Unrecognised as e:
+        items.append(Item("!upload_package", "failed", text=str(e)))
+    # no shape snapshots of the six functions: the templates above match every statement of the six functions (only the text of the
     # ValueError message is free), so an unrecognised edit already fails closed as a missing *_skel definition
     return items
